@@ -99,7 +99,7 @@ def opChars : Op → Text
   | _ => []
 
 def showDir : Direction → String
-  | .forward => "F" | .backward => "B"
+  | .forward => "F" | .backward => "B" | .around k => s!"A{k}"
 
 def showNotif : Notif → String
   | .insChar i c => s!"ic.{i}.{c.toNat}"
@@ -134,6 +134,10 @@ def parseNotif (s : String) : Option Notif :=
   | ["is", i, t] => do pure (.insStr (← parseNat i) (← parseText t))
   | ["d", i, t, "F"] => do pure (.del (← parseNat i) (← parseText t) .forward)
   | ["d", i, t, "B"] => do pure (.del (← parseNat i) (← parseText t) .backward)
+  | ["d", i, t, d] =>
+    -- `delete_around`: `A<k>`, the part before the cursor is `k` bytes long
+    if d.startsWith "A" then do pure (.del (← parseNat i) (← parseText t) (.around (← parseNat (d.drop 1).toString)))
+    else none
   | ["r", i, o, n] => do pure (.repl (← parseNat i) (← parseText o) (← parseText n))
   | ["sk"] => some .startKill
   | ["ek"] => some .stopKill
